@@ -156,6 +156,10 @@ def replay(d):
                     want = list(src[m[nm]].variable) if m.get(nm) in src._block else None
                 if want is None or len(got) != len(want) or any(abs(a - b) > 1e-9 * max(1.0, abs(b)) for a, b in zip(got, want)):
                     bad.append('block %r has state %r, expected %r' % (nm, got, want))
+                if nm not in t.atmblocks and m.get(nm) in src._block:
+                    wp = src[m[nm]].porosity
+                    if inc[nm].porosity is None or abs(inc[nm].porosity - wp) > 1e-12:
+                        bad.append('block %r has porosity %r, the mapped source block %r has %r' % (nm, inc[nm].porosity, m[nm], wp))
         after = [(b.block, list(b.variable), b.porosity) for b in src._blocklist]
         if before != after: bad.append('source initial conditions were altered')
         return bool(bad), 't2incon.transfer_from: ' + ('; '.join(bad[:4]) if bad else 'all obligations hold concretely')
